@@ -32,39 +32,42 @@ type Shape struct {
 	Name     string
 	Args     []ArgKind
 	Variadic bool
+	// Fixed optionally pins a choice argument (used by tables that want one
+	// entry per choice).
+	Fixed string
 }
 
 // Shapes lists, per shipped builtin, the argument shapes its checker accepts
 // (derived from the *Checking functions).
 var Shapes = []Shape{
-	{"add_key", []ArgKind{AKey}, false},
-	{"add_key", []ArgKind{AKey, AExpr}, false},
-	{"get_key", []ArgKind{AKey}, false},
-	{"set_tag", []ArgKind{AKey}, false},
-	{"set_tag", []ArgKind{AKey, AStrOrKey}, false},
-	{"drop_key", []ArgKind{AKey}, false},
-	{"rename", []ArgKind{AKey, AKeyNoLit}, false},
-	{"cast", []ArgKind{AKey, ACastType}, false},
-	{"set_measurement", []ArgKind{AKey}, false},
-	{"set_measurement", []ArgKind{AKey, ABool}, false},
-	{"len", []ArgKind{AExpr}, false},
-	{"load_json", []ArgKind{AExpr}, false},
-	{"strfmt", []ArgKind{AKey, AStr, AExpr}, true},
-	{"printf", []ArgKind{AKey, AExpr}, true},
-	{"trim", []ArgKind{AKey}, false},
-	{"trim", []ArgKind{AKey, AStr}, false},
-	{"uppercase", []ArgKind{AKey}, false},
-	{"replace", []ArgKind{AKey, ARegexp, AStr}, false},
-	{"url_decode", []ArgKind{AKey}, false},
-	{"exit", nil, false},
-	{"grok", []ArgKind{AKey, APattern}, false},
-	{"grok", []ArgKind{AKey, APattern, ABool}, false},
-	{"add_pattern", []ArgKind{AStr, APattern}, false},
-	{"xml", []ArgKind{AKey, AXPath, AKey}, false},
-	{"datetime", []ArgKind{AKey, APrecision, ATimeFmt}, false},
-	{"default_time", []ArgKind{AKey}, false},
-	{"default_time", []ArgKind{AKey, AZone}, false},
-	{"sql_cover", []ArgKind{AKey}, false},
+	{Name: "add_key", Args: []ArgKind{AKey}, Variadic: false},
+	{Name: "add_key", Args: []ArgKind{AKey, AExpr}, Variadic: false},
+	{Name: "get_key", Args: []ArgKind{AKey}, Variadic: false},
+	{Name: "set_tag", Args: []ArgKind{AKey}, Variadic: false},
+	{Name: "set_tag", Args: []ArgKind{AKey, AStrOrKey}, Variadic: false},
+	{Name: "drop_key", Args: []ArgKind{AKey}, Variadic: false},
+	{Name: "rename", Args: []ArgKind{AKey, AKeyNoLit}, Variadic: false},
+	{Name: "cast", Args: []ArgKind{AKey, ACastType}, Variadic: false},
+	{Name: "set_measurement", Args: []ArgKind{AKey}, Variadic: false},
+	{Name: "set_measurement", Args: []ArgKind{AKey, ABool}, Variadic: false},
+	{Name: "len", Args: []ArgKind{AExpr}, Variadic: false},
+	{Name: "load_json", Args: []ArgKind{AExpr}, Variadic: false},
+	{Name: "strfmt", Args: []ArgKind{AKey, AStr, AExpr}, Variadic: true},
+	{Name: "printf", Args: []ArgKind{AKey, AExpr}, Variadic: true},
+	{Name: "trim", Args: []ArgKind{AKey}, Variadic: false},
+	{Name: "trim", Args: []ArgKind{AKey, AStr}, Variadic: false},
+	{Name: "uppercase", Args: []ArgKind{AKey}, Variadic: false},
+	{Name: "replace", Args: []ArgKind{AKey, ARegexp, AStr}, Variadic: false},
+	{Name: "url_decode", Args: []ArgKind{AKey}, Variadic: false},
+	{Name: "exit", Args: nil, Variadic: false},
+	{Name: "grok", Args: []ArgKind{AKey, APattern}, Variadic: false},
+	{Name: "grok", Args: []ArgKind{AKey, APattern, ABool}, Variadic: false},
+	{Name: "add_pattern", Args: []ArgKind{AStr, APattern}, Variadic: false},
+	{Name: "xml", Args: []ArgKind{AKey, AXPath, AKey}, Variadic: false},
+	{Name: "datetime", Args: []ArgKind{AKey, APrecision, ATimeFmt}, Variadic: false},
+	{Name: "default_time", Args: []ArgKind{AKey}, Variadic: false},
+	{Name: "default_time", Args: []ArgKind{AKey, AZone}, Variadic: false},
+	{Name: "sql_cover", Args: []ArgKind{AKey}, Variadic: false},
 }
 
 var (
